@@ -175,6 +175,10 @@ func opaqueKind(t types.Type) string {
 		case "Mutex", "RWMutex", "Once", "WaitGroup":
 			return "sync"
 		}
+	case "regexp":
+		if o.Name() == "Regexp" {
+			return "regexp"
+		}
 	}
 	return ""
 }
@@ -193,6 +197,8 @@ func zeroOpaque(kind string) value {
 		return structure{}
 	case "reflect.Value":
 		return reflVal{}
+	case "regexp":
+		return hostRegexp{}
 	}
 	panic("zeroOpaque " + kind)
 }
